@@ -224,12 +224,27 @@ macro_rules! observe {
                 })
             })
             .collect();
+        // edge_references driven alternately from the front and from the back
+        let edges_mix: Vec<Value> = {
+            let mut it = g.edge_references();
+            let mut v = vec![];
+            let mut front = true;
+            loop {
+                let x = if front { it.next() } else { it.next_back() };
+                match x { Some(e) => v.push(eref(&e)), None => break }
+                front = !front;
+            }
+            v
+        };
         json!({
             "op": "obs",
             "nc": g.node_count(), "ec": g.edge_count(), "nb": nb, "eb": eb,
             "directed": g.is_directed(),
             "nodes": g.node_references().map(|(i, w)| json!([i.index(), *w])).collect::<Vec<_>>(),
             "edges": g.edge_references().map(|e| eref(&e)).collect::<Vec<_>>(),
+            "edges_rev": g.edge_references().rev().map(|e| eref(&e)).collect::<Vec<_>>(),
+            "nodes_rev": g.node_references().rev().map(|(i, w)| json!([i.index(), *w])).collect::<Vec<_>>(),
+            "edges_mix": edges_mix,
             "nidx": g.node_indices().map(|i| i.index()).collect::<Vec<_>>(),
             "nidx_rev": g.node_indices().rev().map(|i| i.index()).collect::<Vec<_>>(),
             "eidx": g.edge_indices().map(|i| i.index()).collect::<Vec<_>>(),
